@@ -310,8 +310,16 @@ func runGateOneNotice(c *core.Ctx) {
 					if notices[in] {
 						n++
 						call := in.(*ssa.Call)
-						arg := an.PathOf(call.Call.Args[len(call.Call.Args)-1])
-						if !strings.Contains(arg, "NewServerNoticeMsg") && !strings.Contains(arg, "NewServerOKMsg") && !strings.Contains(arg, "NewServerClosedMsg") {
+						// what is sent is a rejection built by one of the protocol's constructors
+						// (the message may be any of the send helper's arguments)
+						isRej := false
+						for _, a := range call.Call.Args {
+							arg := an.PathOf(a)
+							if strings.Contains(arg, "NewServerNoticeMsg") || strings.Contains(arg, "NewServerOKMsg") || strings.Contains(arg, "NewServerClosedMsg") {
+								isRej = true
+							}
+						}
+						if !isRej {
 							okCtor = false
 						}
 					}
